@@ -131,6 +131,10 @@ static void one_case(char* line) {
         case 'z': resize(t, (size_t)strtoull(tok + 1, NULL, 10)); break;
         case 't': sort(t); break;
         case 'n': assign(t, make(tok[1], tok + 3)); break;
+        /* D21 witnesses: a wrong-typed element (String into a container of Int) */
+        case 'x': push(t, new_raw(String, $S("x"))); break;
+        case 'X': { var src = make('T', tok + 2); push(src, new_raw(String, $S("x"))); push(src, elem(99));
+                    concat(t, src); break; }
         case 'y': { var t2 = assign(alloc_raw(type_of(t)), t); t = t2; if (KIND is 'S') KIND = 'T'; break; }
         default: res = "BADOP";
       }
